@@ -523,7 +523,7 @@ def search_rename(ctx: Ctx) -> SearchResult:
 	# 4. meeting pairs: programs in which user identifiers stand where tranp may hold two names against each other (outer variable x
 	#    variable first assigned in a nested block, lambda / closure parameter x captured variable, loop variable x outer variable,
 	#    parameter x local, function x local, class x member, member x member); every shape of relation in both directions
-	pair_deadline = Deadline(ctx, 25, 240)
+	pair_deadline = Deadline(ctx, 35, 300)
 	pair_findings = 0
 	n_pair_prog = ctx.scale(2, 12)
 	for n_done in range(n_pair_prog):
@@ -568,6 +568,39 @@ def search_rename(ctx: Ctx) -> SearchResult:
 					res.findings.append(f)
 			elif isinstance(r, tuple):
 				hist['violations-not-shrunk(findings already reported)'] += 1
+		# … and the words tranp gives a meaning to itself as proper suffix / prefix of the program's identifiers (StateEnum, Iteratorx,
+		# xself, lenq2): every class gets every class-like word on both sides; functions, members and variables rotate through theirs
+		if n_done < ctx.scale(1, 4):
+			try:
+				extra = [w for row in gen_c08_names.scan() if row['role'] != 'member' for w in row['words']]
+			except Exception:  # noqa: BLE001
+				extra = []
+			stems = c08gen.affix_stems(extra)
+			n_c = len(stems['class']) if not ctx.thorough else max(len(v) for v in stems.values())
+			for side in (0, 1):
+				for c in range(n_c):
+					if pair_deadline.cut(hist, c, n_c):
+						break
+					mapping = c08gen.affix_renaming(prng, domain, idents, reserved, stems, c, side)
+					if not mapping or not legal_renaming(src, mapping, reserved):
+						hist['affix:no-legal-renaming'] += 1
+						continue
+					res.cases += 1
+					seen.add(f'{hash(src)}:{sorted(mapping.items())}')
+					hist[f"affix:{'suffix' if side == 0 else 'prefix'}-is-a-reserved-word"] += 1
+					r = check_pair(real, src, mapping, base)
+					if isinstance(r, tuple) and pair_findings < 3:
+						again = Real(ctx)
+						if not isinstance(check_pair(again, src, mapping), tuple):
+							ctx.notes.append(f'affix#{n_done}: disagreement not reproduced on a fresh App (session history) — not reported here (C04)')
+							continue
+						f = finding_of(again, src, mapping, again.observe(src), f'affix#{n_done}')
+						pair_findings += 1
+						if f.key not in found_keys:
+							found_keys.add(f.key)
+							res.findings.append(f)
+					elif isinstance(r, tuple):
+						hist['violations-not-shrunk(findings already reported)'] += 1
 	res.distinct = len(seen)
 	res.histogram = dict(hist)
 	res.note = ('programs: nests (module names, classes, class vars, fields, methods, class methods, properties, nested classes, inheritance, enums, '
@@ -576,7 +609,8 @@ def search_rename(ctx: Ctx) -> SearchResult:
 		'member-spelling programs: one user class whose methods / field are iterated by for statements and comprehensions, called and assigned, renamed INTO every word set of '
 		'Generated/C08Names.lean (items/keys/values, list / dict / str method names, cvar verbs, name / value) — library names are reserved for everything but members; '
 		'meeting-pair programs: outer variables declared before variables first assigned in nested if / for / while blocks, loop variables, lambdas and a closure with parameters beside '
-		'captured variables, a class with several members — one identifier of every kind of pair renamed into a proper prefix / suffix / infix / case variant / joined form of (or from) its partner, all 18 shape x direction combinations per program')
+		'captured variables, a class with several members — one identifier of every kind of pair renamed into a proper prefix / suffix / infix / case variant / joined form of (or from) its partner, all 18 shape x direction combinations per program; on the same programs (a base class with a subclass among them) affix renamings: every class gets every class-like reserved word '
+		'(Enum, Iterator, ItemsView, const, list, …) as a proper suffix and as a proper prefix, functions / members / variables rotate through self, cls, init, len, items, …')
 	return res
 
 
